@@ -587,10 +587,3 @@ func (a *w3Analysis) corruptions(files []*w3File) {
 	}
 }
 
-// ---- C29: placeholder (filled in below)
-
-func (a *w3Analysis) queriesVsDisk(files []*w3File, written map[int64]*w3Written) {}
-
-// ---- C30: placeholder
-
-func (a *w3Analysis) retention(files []*w3File) {}
